@@ -82,6 +82,9 @@ func variants() []Variant {
 
 const rule = "state reached through at least one successful edit, mint, burn or ownership handover of an issued token; distinct by canonical hash of token+bank stores, header and reference model"
 
+// Variants exposes the explorations for reuse by the cross-cutting checks (C11, C12).
+func Variants() []Variant { return variants() }
+
 // Parts of the C09 check.
 func Parts() []mc.Part {
 	var ps []mc.Part
